@@ -229,6 +229,21 @@ def gen_real_traces(tier, rng, prop):
             if p:
                 pdus.append(p)
         traces.append(dm.run_history("r%d" % k, cfg, pdus, path=path))
+    # the two ends of the 16-bit PDU address space, on every layout and for every function code: address 65535 (whose one-based
+    # cell 65536 does not exist in any table) and address 0 (whose one-based cell is 1), singly and as the end of a range
+    for j, cfg in enumerate(layouts + failing[:1]):
+        pdus = []
+        for a, q in ((65535, 1), (65534, 2), (65535, 2), (0, 1), (0, 2), (65534, 1)):
+            pdus += [dm.pdu_read(fc, a, q) for fc in (1, 2, 3, 4)]
+            pdus += [dm.pdu_w1(5, a, 0xFF00), dm.pdu_w1(6, a, 0x1234), dm.pdu_mask(a, 0x00FF, 0x1200),
+                     dm.pdu_wn(15, a, q, 1, [3]), dm.pdu_wn(16, a, q, 2 * q, [0xAB, 0xCD] * q),
+                     dm.pdu_rw(a, q, a, q, 2 * q, [0x12, 0x34] * q), dm.pdu_rw(0, 1, a, q, 2 * q, [0x56, 0x78] * q)]
+            pdus += [dm.pdu_read(fc, a, q) for fc in (1, 3)]
+        big = any(b["kind"] == "seq" and b["size"] > 10000 for b in cfg["blocks"].values())
+        if big and tier == "quick" and j % 2:
+            continue
+        fails = any(b["fail"] for b in cfg["blocks"].values())       # a raising datastore is mapped to exception 04 by the front-ends
+        traces.append(dm.run_history("e%d" % j, cfg, pdus, path="sync" if (j % 2 or fails) else "direct"))
     return traces
 
 
